@@ -97,10 +97,38 @@ def opaque_entries(f, v, oracle, acc):
             opaque_entries(ff, d[n], oracle, acc)
 
 
+def stored_pairs(tier, rng, workdir):
+    """The stored transaction record through the real SaveTxState / FetchTxState with SEVERAL records in one store, on a
+    store that copies what it is given and on one that keeps the caller's slice (storage.MockStorage does; the interface
+    does not forbid it): every record fetched back is the one saved under that txid."""
+    cases = []
+    for alias in (0, 1):
+        for n in ((2, 3) if tier == "quick" else (2, 3, 5, 8)):
+            ids = list(range(1, n + 1))
+            ops = [["save", t] for t in ids] + [["fetch", t] for t in ids] + [["save", ids[0]], ["fetch", ids[-1]], ["fetch", ids[0]]]
+            cases.append({"cfg": {"alias": alias}, "ops": ops})
+    res, _ = vlib.run_harness("storedtx", cases, workdir, tag="storedtx")
+    failures = []
+    for c, tr in zip(cases, res):
+        for i, (o, ob) in enumerate(zip(c["ops"], tr)):
+            t = o[1]
+            want = [0] if o[0] == "save" else [0, t, 1 + t % 2, 100 * t, 1 if t % 3 == 0 else 0, t % 2]
+            if list(ob) != want:
+                failures.append({"key0": "storedtx:%s" % ("keeping-store" if c["cfg"]["alias"] else "copying-store"), "suite": "storedtx", "checker": "storedtx", "step": i, "cfg": c["cfg"], "ops": c["ops"], "trace": tr,
+                                 "expected": want, "observed": list(ob),
+                                 "what": "stored tx record %d fetched back after other records were saved is not what was saved "
+                                         "(store %s the written slice)" % (t, "keeps" if c["cfg"]["alias"] else "copies")})
+                break
+    return failures, len(cases)
+
+
 def extra(tier, rng, workdir):
     T, J = cl.load_schemas()
     failures, red = [], []
     cov = {"samples": []}
+    sp_fail, sp_n = stored_pairs(tier, rng, workdir)
+    failures += sp_fail
+    cov["stored_record_sequences"] = sp_n
     quick = tier == "quick"
     nvals = 6 if quick else 40
     nmut = 8 if quick else 30
